@@ -487,8 +487,12 @@ pub fn i128_shifted_div_mod_floor(
     } else if y.is_negative() {
         #[cfg(feature = "verif-hooks")]
         verif::hit(verif::SHDM_POS_NEG);
-        q = q.neg() - 1;
-        r -= y;
+        if r != 0 {
+            q = q.neg() - 1;
+            r += y;
+        } else {
+            q = q.neg();
+        }
     }
     Some((q, r))
 }
